@@ -2,6 +2,7 @@ package props
 
 import (
 	"fmt"
+	"go/token"
 	"go/types"
 	"strings"
 
@@ -68,25 +69,9 @@ func C05forms(p *load.Program, run *report.Run) {
 	// the space Streaming.Garble reserves before each garbleGate call
 	reserve, maxRecord := int64(-1), int64(0)
 	if g, err := p.Method("circuit", "Streaming", "Garble"); err == nil {
-		for _, b := range g.Blocks {
-			for _, ins := range b.Instrs {
-				if c, ok := ins.(*ssa.Call); ok && c.Call.StaticCallee() != nil && c.Call.StaticCallee().Name() == "NeedSpace" {
-					if k, ok := c.Call.Args[1].(*ssa.Const); ok {
-						reserve = k.Int64()
-						// it must dominate the garbleGate call
-						for _, b2 := range g.Blocks {
-							for _, i2 := range b2.Instrs {
-								if c2, ok := i2.(*ssa.Call); ok && c2.Call.StaticCallee() == garbleGate && !b.Dominates(b2) {
-									reserve = -1
-								}
-							}
-						}
-					}
-				}
-			}
-		}
+		reserve = reservedPerCall(g, garbleGate)
 	}
-	run.Rule("stream-record-space", "the bytes garbleGate writes equal its buffer-position advance and fit the space Streaming.Garble reserves before the call")
+	run.Rule("stream-record-space", "the bytes garbleGate writes equal its buffer-position advance and fit the space Streaming.Garble reserves for the call: a constant NeedSpace(K) that dominates it (K per record), or NeedSpace(K) under `i % B == 0` for the gate counter i (from 0, step 1) in a test that dominates the call (K/B per record)")
 	if reserve < 0 {
 		run.Violate("stream-record-space", "circuit.Streaming.Garble/NeedSpace", p.Rel(garbleGate.Pos()), "no constant space reservation dominates the garbleGate call", nil)
 	}
@@ -501,4 +486,98 @@ func (r *evalRegionT) run(p *load.Program, rec *streamRecord, pa, pb, va, vb boo
 		return nil, fpai.IntV{}, 0, &fpai.Undecided{Why: "no output label stored"}
 	}
 	return lv, idNext, len(rec.log) - pos, nil
+}
+
+// reservedPerCall: the constant number of bytes role reserves (NeedSpace) for each call of record, or -1.
+func reservedPerCall(role, record *ssa.Function) int64 {
+	var recCalls []*ssa.Call
+	for _, b := range role.Blocks {
+		for _, ins := range b.Instrs {
+			if c, ok := ins.(*ssa.Call); ok && c.Call.StaticCallee() == record {
+				recCalls = append(recCalls, c)
+			}
+		}
+	}
+	if len(recCalls) == 0 {
+		return -1
+	}
+	best := int64(-1)
+	for _, b := range role.Blocks {
+		for _, ins := range b.Instrs {
+			c, ok := ins.(*ssa.Call)
+			if !ok || c.Call.StaticCallee() == nil || c.Call.StaticCallee().Name() != "NeedSpace" || len(c.Call.Args) < 2 {
+				continue
+			}
+			k, ok := c.Call.Args[1].(*ssa.Const)
+			if !ok {
+				continue
+			}
+			all := true
+			for _, rc := range recCalls {
+				if !(b.Dominates(rc.Block()) && (b != rc.Block() || instrIndex(c) < instrIndex(rc))) {
+					all = false
+				}
+			}
+			if all {
+				best = k.Int64()
+				continue
+			}
+			// batched: the reservation sits on the true edge of `i % B == 0` of a block that dominates the calls
+			for _, p := range role.Blocks {
+				iff, ok := p.Instrs[len(p.Instrs)-1].(*ssa.If)
+				if !ok || len(p.Succs) != 2 {
+					continue
+				}
+				eq, ok := iff.Cond.(*ssa.BinOp)
+				if !ok || eq.Op != token.EQL {
+					continue
+				}
+				z, ok := eq.Y.(*ssa.Const)
+				if !ok || z.Value == nil || z.Int64() != 0 {
+					continue
+				}
+				rem, ok := eq.X.(*ssa.BinOp)
+				if !ok || rem.Op != token.REM {
+					continue
+				}
+				bc, ok := rem.Y.(*ssa.Const)
+				if !ok || bc.Value == nil || bc.Int64() <= 0 {
+					continue
+				}
+				if !(p.Succs[0] == b || p.Succs[0].Dominates(b)) || p.Succs[1] == b || p.Succs[1].Dominates(b) {
+					continue
+				}
+				// the counter: phi(0, phi+1)
+				ph, ok := rem.X.(*ssa.Phi)
+				if !ok || len(ph.Edges) != 2 {
+					continue
+				}
+				zero, step := false, false
+				for _, e := range ph.Edges {
+					if kc, ok := e.(*ssa.Const); ok && kc.Value != nil && kc.Int64() == 0 {
+						zero = true
+					}
+					if add, ok := e.(*ssa.BinOp); ok && add.Op == token.ADD && add.X == ssa.Value(ph) {
+						if one, ok := add.Y.(*ssa.Const); ok && one.Value != nil && one.Int64() == 1 {
+							step = true
+						}
+					}
+				}
+				if !zero || !step {
+					continue
+				}
+				dom := true
+				for _, rc := range recCalls {
+					if !p.Dominates(rc.Block()) || !blockReaches(ph.Block(), ph.Block()) {
+						dom = false
+					}
+					// exactly one record per iteration: the call is not in a loop nested inside the counter's loop
+				}
+				if dom {
+					best = k.Int64() / bc.Int64()
+				}
+			}
+		}
+	}
+	return best
 }
